@@ -137,10 +137,66 @@ def classify(h, names, flag):
     return r, out
 
 
+def tar_member_job(args):
+    s4, path = args
+    r = core.run([s4, "--color", "never", "-t=+00:00", "-s", path], core.base_env(tmpdir=os.path.dirname(path)), timeout=120)
+    ft = [ln.split(b":", 1)[1].strip() for ln in r.err.splitlines() if ln.strip().startswith(b"filetype ")]
+    return r, ft
+
+
+def tar_members(ctx, s4, rng):
+    """A member of a .tar is classified from the member's own name alone: whatever the archive is called and wherever the
+    member sits in it, the reader (the summary's 'filetype' line) and the output must be those of a plain file of that
+    name."""
+    from vlib import fsgen
+    d = ctx.casedir("tarmembers")
+    lx = fsgen.LAYOUTS["Fs_Linux_x86_Utmpx"]
+    fs = {"wtmp": lx, "utmp": lx, "btmp": lx, "wtmp.1": lx, "host.wtmp": lx, "utmpx": fsgen.LAYOUTS["Fs_Freebsd_x8664_Utmpx"],
+          "lastlog": fsgen.LAYOUTS["Fs_Linux_x86_Lastlog"], "acct": fsgen.LAYOUTS["Fs_Linux_x86_Acct"], "pacct": fsgen.LAYOUTS["Fs_Linux_x86_Acct_v3"],
+          "lastlogx": fsgen.LAYOUTS["Fs_Netbsd_x8632_Lastlogx"]}
+    text = b"".join(b"2024-03-01 12:00:%02d S0M%d text line\n" % (i, i) for i in range(5))
+    members = {}
+    for nm, lay in fs.items():
+        members[nm] = fsgen.build_file(lay, [fsgen.make_record(lay, i, 1_690_000_000 + 10 * i, usec=i)[0] for i in range(3)])
+    for nm in ("messages", "syslog", "a.log", "kern.log.1", "noext", "wtmp.txt"):
+        members[nm] = text
+    archives = ["a.tar", "sample.tar", "wtmp.tar", "messages.tar", "backup.1.tar", "logs.tar", "utmp.tar", "x.log.tar", "lastlog.tar", "acct.2.tar"]
+    jobs, meta = [], []
+    for nm, data in members.items():
+        pd = os.path.join(d, "plain-" + nm)
+        os.makedirs(pd, exist_ok=True)
+        jobs.append((s4, gen.write(os.path.join(pd, nm), data)))
+        meta.append((nm, None, None))
+        for an in (archives if not ctx.quick else rng.sample(archives, 5)):
+            for place in ("", "d/", "./", "var/log/"):
+                td = os.path.join(d, "t-%s-%s-%s" % (nm, an, place.replace("/", "_").replace(".", "dot")))
+                os.makedirs(td, exist_ok=True)
+                jobs.append((s4, gen.write(os.path.join(td, an), gen.tar_bytes([(place + nm, data, 1_600_000_000)]))))
+                meta.append((nm, an, place))
+    ref = {}
+    res = core.pmap(tar_member_job, jobs)
+    for (nm, an, place), (r, ft) in zip(meta, res):
+        if an is None:
+            ref[nm] = (r.out, ft)
+    for (nm, an, place), (r, ft) in zip(meta, res):
+        if an is None:
+            continue
+        ctx.evaluated(1, ("tar-member", nm, an, place))
+        ctx.count("tar members compared with the plain file of the same name")
+        rout, rft = ref[nm]
+        ftn = [x.replace(b" (TAR)", b"") for x in ft]
+        if ftn != rft or r.out != rout:
+            ctx.violation("C16|tar-member-read-differently-from-plain-file|%s" % ("top-level" if place in ("", "./") else "nested"),
+                          "member %r of %r: filetype %s, %d bytes printed; the plain file %r: filetype %s, %d bytes" % (
+                              place + nm, an, [x.decode() for x in ft], len(r.out), nm, [x.decode() for x in rft], len(rout)),
+                          info={"argv": r.argv, "member": place + nm, "archive": an})
+
+
 def run(ctx):
     h = core.build_harness()
     s4 = core.build_s4()
     rng = ctx.rng
+    tar_members(ctx, s4, rng)
     names = grammar(ctx, rng)
     # non-log words and tar in the grammar too
     for w in NONLOG + ["tar"]:
